@@ -158,19 +158,33 @@ def args_update_oracle(spec: Spec, cfg: dict, pre_bs, b: Batch, nc: bool):
 def args_functional_oracle(spec: Spec, cfg: dict, b2: Batch):
     """the functional twin on non-contiguous views of `b2`: the caller's tensors must not move.  violation | None."""
     ctx = {"check": "args-functional", "class": spec.name, "cfg": public_cfg(cfg), "batch": b2.describe(), "noncontig": True}
+    import copy
     b2 = noncontig(b2, None)
     before = [t.clone() for t in tens(b2)]
+    nb = copy.deepcopy([a for a in b2.args if not isinstance(a, torch.Tensor)])
     call_real(lambda: spec.functional(cfg, b2))
     for t, c in zip(tens(b2), before):
         if not torch.equal(t.to(torch.float64).nan_to_num(), c.to(torch.float64).nan_to_num()):
             return (f"C11|{spec.name}|functional|argument-modified", f"functional twin of {spec.name} modified a caller tensor", ctx)
+    if nb != [a for a in b2.args if not isinstance(a, torch.Tensor)]:
+        return (f"C11|{spec.name}|functional|argument-modified", f"functional twin of {spec.name} modified a caller sequence", ctx)
     return None
+
+
+def short_forms(b: Batch, rng) -> Batch:
+    """documented short spellings of sequence arguments: a reference list with one entry may be given as the bare
+    string (BLEU: `target: Sequence[str | Sequence[str]]`) — the caller's list must survive the call as it was."""
+    def conv(a):
+        if isinstance(a, list) and a and all(isinstance(x, list) and all(isinstance(y, str) for y in x) for x in a):
+            return [x[0] if len(x) == 1 and rng.random() < 0.7 else x for x in a]
+        return a
+    return Batch(tuple(conv(a) for a in b.args), dict(b.kwargs))
 
 
 def check_args(rep, rng, spec, cfg0):
     cfg = fresh_cfg(cfg0)
     pre_bs = gen_stream(spec, cfg, rng, rng.choice([0, 1]))
-    b = spec.gen(rng, cfg, rng.choice(spec.sizes))
+    b = short_forms(spec.gen(rng, cfg, rng.choice(spec.sizes)), rng)
     nc = rng.random() < 0.5
     v, stop, before = args_update_oracle(spec, cfg, pre_bs, b, nc)
     rep.case(nontrivial_key=(spec.name, repr(public_cfg(cfg)), "args", ckey(before)))
@@ -179,7 +193,7 @@ def check_args(rep, rng, spec, cfg0):
         if stop:
             return
     if spec.functional is not None and spec.cat is not None:
-        v = args_functional_oracle(spec, cfg, spec.gen(rng, cfg, rng.choice(spec.sizes)))
+        v = args_functional_oracle(spec, cfg, short_forms(spec.gen(rng, cfg, rng.choice(spec.sizes)), rng))
         if v:
             rep.violation(*v)
 
